@@ -55,6 +55,13 @@ CLAIMS = {
          "_SELECT KEY / UNIQUE directives naming unknown columns through sql.NewTable and sqlcrud.generateTable. Sweeps: typescript, dart (incl. Generate), SQL validators, gounions, randdata on every analysis.Type skeleton "
          "of depth<=1 (quick) / 2 (thorough) over the nine node kinds. NOT decided: the full statement over all well-typed packages (createType on arbitrary go/types graphs, unbounded recursion, packages.Load).",
          "DESIGN.md section 4 (C18)", ""),
+ "C20": ("Decides the whole statement within the bounds: 2 (quick) / 3 (thorough) goroutines each issuing one FormatFile(format, file) on one shared zero Formatters, format ranging over NoFormat, the four formats and an "
+         "out-of-range value, tool presence (4 booleans) and run failure (one per request) symbolic. The real SSA of hasGo/hasDart/hasTypescript/hasPsql/FormatFile runs on engine threads; sync.Mutex/WaitGroup and "
+         "os/exec are environment models; every interleaving at the visible operations (Lock, Unlock, command execution, Wait, thread exit) is explored and happens-before is tracked with vector clocks, so that "
+         "two unordered conflicting accesses to any memory cell are reported as a data race on every schedule. Assertions: no data race, no deadlock, each tool probed at most once, the formatter runs exactly once "
+         "per request when present, error iff the run fails, absent tool => nil error and no command/write naming the file. Commands are matched by tool and mentioned file, not by exact flags. Counterexamples are "
+         "replayed natively with fake tools on PATH under `go test -race` (up to 8/20 attempts).",
+         "DESIGN.md section 3 (C20)", "Additionally trusted: the sync/os.exec environment model of engine/threads.go; interleavings are case-split at synchronisation points only (unsynchronised accesses are found by the happens-before check, not by finer interleaving)."),
 }
 
 NA = {
